@@ -64,7 +64,7 @@ ASSUMPTIONS = [
     'semantics the code\'s own except-branch is written for) and every crash point of the resulting '
     'remove+rename fall-back is judged like any other step of a save',
 ]
-REQUIRED_HITS = [
+REQUIRED_HITS = ['F1.later_save_after_interrupted_one', 
     'E1.reload_unlock_checked', 'E1.relock_unlock_checked', 'E1.added_account_checked', 'E1.repassword_checked',
     'E2.wrong_checked', 'E2.valid_padding_by_chance', 'E2.near_miss_checked', 'E2.old_password_checked',
     'E2.after_lock_checked',
@@ -1118,8 +1118,8 @@ def exec_crash(rec, case):
             return t.log
         ops = crash.expect_clean(crash.fork_run(ops_child), 'op trace')
         rec.note('fs_ops_of_a_save', ops)
-        if 'open' not in ops or 'file.write' not in ops:
-            raise RuntimeError(f'op trace misses open/write: {ops}')
+        if not any(o in ops for o in ('open', 'os.open')):
+            raise RuntimeError(f'op trace shows no file being opened at all: {ops}')
         for i in range(len(ops)):
             for when in ('before', 'after'):
                 if rec.out_of_time():
@@ -1127,7 +1127,9 @@ def exec_crash(rec, case):
                     break
                 run_point('call', lambda i=i, when=when: make_trace(die_at=i, when=when), f'op#{i}:{ops[i]}:{when}')
         # ---- (c) torn write: a prefix of the data reaches the file, then death
-        iw = ops.index('file.write')
+        iw = ops.index('file.write') if 'file.write' in ops else None
+        if iw is None:
+            rec.log('F1.torn_write_not_simulated(no proxied file.write in the op trace)')
         total = len(B)
         rr = random.Random(case['sub'])
         if case.get('all_prefixes'):
@@ -1135,7 +1137,7 @@ def exec_crash(rec, case):
         else:
             cuts = sorted({0, 1, 2, total // 2, total - 1, total, 4096, 8192, 8193} | {rr.randrange(total + 1) for _ in range(10)})
             cuts = [c for c in cuts if c <= total]
-        for n in cuts:
+        for n in (cuts if iw is not None else []):
             if rec.out_of_time():
                 complete = False
                 break
@@ -1169,6 +1171,49 @@ def exec_crash(rec, case):
                                   f'op#{i}:{ops2[i]}:{when}')
             else:
                 rec.log('F1.save_raises_when_rename_refuses_overwrite')
+        # ---- (e) an interrupted save followed by a complete LATER save of a smaller wallet by a process that gets the same pid
+        # (pids are reused; the temp file name only depends on the pid).  Added after seeded break C13-A.
+        PID = 4242
+
+        def shrink_and_save():
+            os.getpid = lambda: PID
+            time.time = lambda: frozen
+            wallet.name = 'S'
+            while len(wallet.accounts) > 1:
+                wallet.accounts.pop()
+            wallet.save()
+        reset_dir()
+        ctrl = crash.fork_run(shrink_and_save)
+        S = read_bytes(path) if ctrl.completed else None
+        if S is not None and len(S) < len(B):
+            first_w = min([ops.index(o) for o in ('file.write', 'os.write', 'os.fsync') if o in ops] or [0])
+            for i in range(first_w, len(ops)):
+                if rec.out_of_time():
+                    break
+                reset_dir()
+
+                def child1(i=i):
+                    os.getpid = lambda: PID
+                    make_trace(die_at=i, when='before')
+                    the_save()
+                r1 = crash.fork_run(child1)
+                if not r1.died_at_failpoint:
+                    continue
+                r2 = crash.fork_run(shrink_and_save)
+                rec.hit('F1.later_save_after_interrupted_one')
+                final = read_bytes(path)
+                rec.case(f"crash2|{case['sub']}|{op}|{scenario}|{i}")
+                if not r2.completed or final != S:
+                    rec.violation('C13/F1/later-save-corrupted-by-leftover-of-interrupted-save',
+                                  f'a save died before {ops[i]} (leaving its temp file), a later complete save of a smaller wallet by a process with the '
+                                  f'same pid left a wallet file that is not the complete new version ({"absent" if final is None else len(final)} bytes, '
+                                  f'expected {len(S)}) ({ctx})',
+                                  {'died_before': ops[i], 'final_len': None if final is None else len(final), 'expected_len': len(S),
+                                   'tail': None if final is None else final[len(S) - 20:len(S) + 60].decode('utf-8', 'replace'),
+                                   'second_save_completed': r2.completed})
+                    break
+        else:
+            rec.log('F1.later_save_scenario_skipped(second version not smaller)')
         rec.exhaustive['save_crash_points'] = complete and rec.exhaustive.get('save_crash_points', True)
         if len(rec.samples) < 4 and not any(isinstance(s, dict) and 'crash_case' in s for s in rec.samples):
             rec.samples.append({'crash_case': ctx, 'line_events': lines, 'fs_ops': ops, 'short_write_cuts': cuts[:8]})
